@@ -35,7 +35,8 @@ FAMILIES = ['cell-cards', 'cell-cards-np', 'data-n', 'data-np-two-cards',
             'mixed-sources', 'one-particle-zero-cell', 'one-particle-zero-data',
             'filled-cells', 'extra-keywords',
             'zero-first', 'zero-last', 'all-but-one-zero', 'like-but-imp0',
-            'like-but-imp1', 'like-data-card']
+            'like-but-imp1', 'like-data-card', 'like-but-regrouped',
+            'cell-cards-fortran', 'ilog-shorthand']
 _PER = {'quick': 10, 'thorough': 3000}
 
 
@@ -149,6 +150,65 @@ def build(case):
             new.imp = {'n': '2'}
         deck.cells.append(new)
         deck.tags.add('like.imp')
+    if fam == 'like-but-regrouped':
+        # the BUT list names the particle types in another grouping than the
+        # copied cell: IMP:N,P=1 against IMP:N=0 IMP:P=0, IMP:P,N=0, ...
+        groupings = [{'n,p': None}, {'n': None, 'p': None}, {'p,n': None}]
+        for cel, val in zip(cells, all_vals):
+            cel.imp = {'n,p': val}
+        nlike = rng.randint(1, 3)
+        for k in range(nlike):
+            base = rng.choice(cells[:ncell])
+            shape0 = rng.choice(groupings)
+            base.imp = {parts: rng.choice(['1', '2']) for parts in shape0}
+            new = base.copy()
+            new.id = ncell + 2 + k
+            new.like = base.id
+            shape1 = rng.choice([g for g in groupings if g != shape0])
+            want_zero = rng.random() < 0.7
+            new.imp = {parts: '0' for parts in shape1}
+            if not want_zero:
+                first = next(iter(new.imp))
+                new.imp[first] = '3'
+            new.but = ['imp', 'trcl']
+            from ..gen_surf import tr_spec
+            from ..mcnp_ref import Motion
+            new.trcl = tr_spec(rng, Motion([30.0 + 25.0 * k, 0.0, 0.0]),
+                               'inline3')
+            deck.cells.append(new)
+        deck.tags.add('like.imp-regrouped')
+    if fam == 'cell-cards-fortran':
+        # Fortran spellings of the value of the IMP keyword
+        on_cards(['n'])
+        zero_forms = ['0d0', '0.0D+00', '0+0', '0.-0', '0e0']
+        live_forms = ['1d0', '2.5D-1', '5-1', '1+0', '1.0E+00', '.5d0']
+        for cel, val in zip(cells, all_vals):
+            cel.imp = {'n': rng.choice(zero_forms if float(val) == 0
+                                       else live_forms)}
+    if fam == 'ilog-shorthand':
+        # logarithmic interpolation, with and without a count
+        total = ncell + 1
+        for _ in range(50):
+            nlog = rng.choice([0, 1, 1, 2])        # 0 = bare 'ilog'
+            lead = rng.randint(0, max(0, total - nlog - 3))
+            toks = [rng.choice(['1', '2', '0.5']) for _ in range(lead + 1)]
+            toks.append(('' if nlog == 0 else str(nlog))
+                        + rng.choice(['ilog', 'ILOG', 'log']))
+            toks.append(rng.choice(['8', '16', '64']))
+            count = lead + 1 + max(nlog, 1) + 1
+            if count > total - 1:
+                continue
+            toks += [rng.choice(['1', '0', '4']) for _ in
+                     range(total - 1 - count)]
+            toks.append('0')
+            vals = M.expand_shorthand(toks)
+            if len(vals) == total and any(v == 0 for v in vals[:-1]):
+                break
+        else:
+            toks = ['1', 'ilog', '4'] + ['0'] * (total - 3)
+        for cel in cells:
+            cel.imp = None
+        deck.imp_cards.append(('n', toks))
     if fam == 'like-data-card':
         # LIKE cells that take their importance from the IMP data card, at
         # their own position in the cell block - not at the position of the
